@@ -183,12 +183,20 @@ def _run_harnesses_now(kc, names, work, log, extra_args, timeout, jobs, target):
         cmd += ['--harness', n]
     env = dict(os.environ, CARGO_NET_OFFLINE='true', CARGO_TARGET_DIR=os.path.join(work, 'ktarget'))
     t = time.time()
+    # own session: on timeout the whole process group (cargo-kani, kani-driver, every cbmc) is killed, not only the direct child
+    import signal
+    pr = subprocess.Popen(cmd, cwd=kc, stdout=subprocess.PIPE, stderr=subprocess.PIPE, text=True, env=env, start_new_session=True)
     try:
-        p = subprocess.run(cmd, cwd=kc, capture_output=True, text=True, timeout=timeout, env=env)
-        out = p.stdout + '\n' + p.stderr
+        so, se = pr.communicate(timeout=timeout)
+        out = so + '\n' + se
         timed_out = False
-    except subprocess.TimeoutExpired as e:
-        out = (e.stdout.decode() if isinstance(e.stdout, bytes) else (e.stdout or '')) + '\n' + (e.stderr.decode() if isinstance(e.stderr, bytes) else (e.stderr or ''))
+    except subprocess.TimeoutExpired:
+        try:
+            os.killpg(pr.pid, signal.SIGKILL)
+        except Exception:
+            pass
+        so, se = pr.communicate()
+        out = (so or '') + '\n' + (se or '')
         timed_out = True
     wall = time.time() - t
     log('kani: %d harnesses in %.1fs%s' % (len(names), wall, ' (TIMEOUT)' if timed_out else ''))
